@@ -222,6 +222,13 @@ def main(tier):
                 env.update(LOCPATH=locdir, LC_ALL='xx_VERIF')
             if h % 4 >= 2:
                 env['XV_ERRNO'] = '1'       # errno as some earlier call of the process may have left it (ENOMEM, ERANGE, EDOM, ...) before every query
+            if h % 5 == 3:
+                env['XV_FPFLAGS'] = '1'     # sticky FP status flags the host's own arithmetic left raised (before every second query): values as in a fresh process
+            round_only = False
+            if h % 6 == 5:
+                # a host that works in a directed rounding mode (interval arithmetic): the values may differ in the last bits from the round-to-nearest
+                # baseline, so only the process state is judged here - the rounding mode the host chose is still in force after the history
+                env['XV_ROUND'] = ('up', 'down', 'zero')[(h // 6) % 3]; round_only = True
             resp, msgs, rep = P.run(Q[seq], S, env)
             if resp is None:
                 ck.violation('crash:history', 'history process died', dict(history=h, info=rep, config=config, seed=ck.seed))
@@ -233,6 +240,9 @@ def main(tier):
             totals['hashed_bytes'] = rep['hashed_bytes']; totals['errors_kept'] += rep['errors_kept']
             can = canon(resp, msgs)
             isb = np.isin(seq, bidx)
+            if round_only:
+                totals['histories_in_a_directed_rounding_mode'] = totals.get('histories_in_a_directed_rounding_mode', 0) + 1
+                continue
             for k in np.nonzero(isb)[0]:
                 q = int(seq[k])
                 want = base_loc[q] if (h % 3 == 1 and q in base_loc) else baseline[q]
@@ -356,7 +366,7 @@ def main(tier):
                     'is run as the only call of a fresh process, then re-observed inside seeded random histories (with/without XRayInit, C and comma-decimal '
                     'locale) and compared bit for bit (status, code, message, values); writable library segments hashed before/after; locale, cwd, '
                     'stdout/stderr bytes and kept error objects re-checked; distinct = baseline queries re-observed identically after >= 2 different predecessor functions',
-               samples=samples, fresh_process_baselines=totals['fresh'], library_loads_observed_by_the_load_monitor=totals['loads'], long_run_calls=totals.get('long_run_calls', 0), long_run_blocks_of_repetitions=totals.get('long_run_blocks', 0), histories=totals['histories'], histories_on_the_project_build=totals.get('histories_on_the_project_build', 0), history_length=hlen,
+               samples=samples, fresh_process_baselines=totals['fresh'], library_loads_observed_by_the_load_monitor=totals['loads'], histories_in_a_directed_rounding_mode=totals.get('histories_in_a_directed_rounding_mode', 0), long_run_calls=totals.get('long_run_calls', 0), long_run_blocks_of_repetitions=totals.get('long_run_blocks', 0), histories=totals['histories'], histories_on_the_project_build=totals.get('histories_on_the_project_build', 0), history_length=hlen,
                queries_reobserved=len(totals['reobserved']), hashed_bytes_per_history=totals['hashed_bytes'], error_objects_kept_and_recompared=totals['errors_kept'])
     return ck.finish(cov, ['library linked shared with -z now so that lazy binding does not rewrite the GOT', 'puremon harness, numpy'])
 
